@@ -187,6 +187,7 @@ var whitelist = []struct{ pkg, recv, name string }{
 	{"pkg/descriptor", "Message", "MultiplexerSignal"},
 	{"pkg/descriptor", "Signal", "ValueDescription"},
 	{"pkg/descriptor", "Signal", "UnmarshalValueDescription"},
+	{"pkg/dbc", "Identifier", "Validate"},
 }
 
 // ---------------------------------------------------------------------------- errors
@@ -604,6 +605,7 @@ func (t *translator) analyse(key string, from token.Pos) *fn {
 	if sig.Variadic() || sig.TypeParams() != nil || sig.RecvTypeParams() != nil {
 		t.failf(d.decl.Pos(), "variadic or generic function")
 	}
+	named := map[*types.Var]bool{}
 	add := func(v *types.Var) {
 		// (an unnamed or blank parameter cannot be mentioned by the body; it stays a parameter of the
 		// translated function)
@@ -622,8 +624,10 @@ func (t *translator) analyse(key string, from token.Pos) *fn {
 	}
 	for i := 0; i < sig.Results().Len(); i++ {
 		rv := sig.Results().At(i)
-		if rv.Name() != "" {
-			t.failf(rv.Pos(), "named result")
+		if rv.Name() != "" && rv.Name() != "_" {
+			// a named result is accepted when the body never mentions it outside the one recognised
+			// `defer` (errWrapDefer): every return then has explicit values
+			named[rv] = true
 		}
 		g := t.classify(d.decl.Type.Results.Pos(), rv.Type())
 		if g.ptr {
@@ -663,6 +667,15 @@ func (t *translator) analyse(key string, from token.Pos) *fn {
 	}
 	ast.Inspect(d.decl.Body, func(n ast.Node) bool {
 		switch x := n.(type) {
+		case *ast.DeferStmt:
+			if errWrapDefer(info, x) {
+				return false // no effect on the nil-ness of the error result
+			}
+			t.failf(x.Pos(), "defer (other than `defer func() { if err != nil { err = fmt.Errorf(...) } }()` on a named error result)")
+		case *ast.Ident:
+			if v, ok := info.Uses[x].(*types.Var); ok && named[v] {
+				t.failf(x.Pos(), "use of the named result %s", x.Name)
+			}
 		case *ast.FuncLit:
 			t.failf(x.Pos(), "function literal")
 		case *ast.AssignStmt:
@@ -786,6 +799,44 @@ func (t *translator) fieldSteps(pos token.Pos, sel *types.Selection) []fieldStep
 		cur = fld.Type()
 	}
 	return steps
+}
+
+// errWrapDefer recognises
+//
+//	defer func() { if err != nil { err = fmt.Errorf(...) } }()
+//
+// with err a variable of type error (the named result): it replaces a non-nil error by another
+// non-nil error and leaves nil alone, so under the reduction of errors to nil / non-nil it is a no-op.
+func errWrapDefer(info *types.Info, d *ast.DeferStmt) bool {
+	fl, ok := d.Call.Fun.(*ast.FuncLit)
+	if !ok || len(d.Call.Args) != 0 || fl.Type.Params.NumFields() != 0 || fl.Type.Results.NumFields() != 0 || len(fl.Body.List) != 1 {
+		return false
+	}
+	ifs, ok := fl.Body.List[0].(*ast.IfStmt)
+	if !ok || ifs.Init != nil || ifs.Else != nil || len(ifs.Body.List) != 1 {
+		return false
+	}
+	cond, ok := ifs.Cond.(*ast.BinaryExpr)
+	if !ok || cond.Op != token.NEQ {
+		return false
+	}
+	ev, ok := cond.X.(*ast.Ident)
+	if !ok || !info.Types[cond.Y].IsNil() {
+		return false
+	}
+	v, ok := info.Uses[ev].(*types.Var)
+	if !ok || !types.Identical(v.Type(), types.Universe.Lookup("error").Type()) {
+		return false
+	}
+	as, ok := ifs.Body.List[0].(*ast.AssignStmt)
+	if !ok || as.Tok != token.ASSIGN || len(as.Lhs) != 1 || len(as.Rhs) != 1 {
+		return false
+	}
+	if l, ok := as.Lhs[0].(*ast.Ident); !ok || info.Uses[l] != types.Object(v) {
+		return false
+	}
+	call, ok := as.Rhs[0].(*ast.CallExpr)
+	return ok && isErrorf(calleeOf(info, call))
 }
 
 // isBoundsCheck: the statement `_ = x[k]` (the idiom that makes the compiler check len(x) > k once).
@@ -1339,6 +1390,8 @@ func (c *fctx) expr(e ast.Expr) string {
 				return c.expr(x.Args[0]) // the slice IS its length
 			case kList:
 				return fmt.Sprintf("(list_len %s)", c.expr(x.Args[0]))
+			case kString:
+				return fmt.Sprintf("(bytes_len %s)", c.expr(x.Args[0])) // the number of BYTES
 			}
 			t.failf(x.Pos(), "len of %s", c.info.TypeOf(x.Args[0]))
 		case "make":
@@ -2046,6 +2099,11 @@ func (c *fctx) block(list []ast.Stmt, ind int, k cont) string {
 			}
 		}
 		t.failf(s.Pos(), "internal: written parameter not found")
+	case *ast.DeferStmt:
+		if !errWrapDefer(c.info, s) {
+			t.failf(s.Pos(), "defer")
+		}
+		return rest(ind)
 	case *ast.BranchStmt:
 		if s.Tok != token.CONTINUE || s.Label != nil || len(c.loops) == 0 {
 			t.failf(s.Pos(), "%s outside the subset (only an unlabelled continue inside a loop)", s.Tok)
